@@ -200,4 +200,230 @@ theorem limb4_sum (u : Nat) (hu : u < B) : sumB (fun b => b % 16 + b / 16) 8 (li
   rw [limb4_bytes u hu, sumB_comp n4 _ n4_lt, popc_bytes]
   exact sumB_congr _ _ n4_sum 8 u
 
+
+/-! ## the 4-limb block -/
+
+def allB (p : Nat → Prop) : Nat → Nat → Prop
+  | 0, _ => True
+  | k + 1, x => p (x % 256) ∧ allB p k (x / 256)
+
+theorem and15 (x : Nat) : x &&& 15 = x % 16 := Nat.and_two_pow_sub_one_eq_mod x 4
+theorem and255 (x : Nat) : x &&& 255 = x % 256 := Nat.and_two_pow_sub_one_eq_mod x 8
+
+/-- the word with bytes e0..e7 -/
+def w8 (e0 e1 e2 e3 e4 e5 e6 e7 : Nat) : Nat :=
+  e0 + 256 * e1 + 65536 * e2 + 16777216 * e3 + 4294967296 * e4 + 1099511627776 * e5 + 281474976710656 * e6 +
+    72057594037927936 * e7
+
+theorem fold_a (e0 e1 e2 e3 e4 e5 e6 e7 : Nat) (h0 : e0 ≤ 32) (h1 : e1 ≤ 32) (h2 : e2 ≤ 32) (h3 : e3 ≤ 32)
+    (h4 : e4 ≤ 32) (h5 : e5 ≤ 32) (h6 : e6 ≤ 32) (h7 : e7 ≤ 32) :
+    (w8 e0 e1 e2 e3 e4 e5 e6 e7 / 256 + w8 e0 e1 e2 e3 e4 e5 e6 e7) % 18446744073709551616 =
+      w8 (e0 + e1) (e1 + e2) (e2 + e3) (e3 + e4) (e4 + e5) (e5 + e6) (e6 + e7) e7 := by
+  simp only [w8]; omega
+
+theorem fold_b (e0 e1 e2 e3 e4 e5 e6 e7 : Nat) (h0 : e0 ≤ 64) (h1 : e1 ≤ 64) (h2 : e2 ≤ 64) (h3 : e3 ≤ 64)
+    (h4 : e4 ≤ 64) (h5 : e5 ≤ 64) (h6 : e6 ≤ 64) (h7 : e7 ≤ 64) :
+    (w8 e0 e1 e2 e3 e4 e5 e6 e7 / 65536 + w8 e0 e1 e2 e3 e4 e5 e6 e7) % 18446744073709551616 =
+      w8 (e0 + e2) (e1 + e3) (e2 + e4) (e3 + e5) (e4 + e6) (e5 + e7) e6 e7 := by
+  have hd : w8 e0 e1 e2 e3 e4 e5 e6 e7 / 65536 = w8 e2 e3 e4 e5 e6 e7 0 0 := by simp only [w8]; omega
+  rw [hd]; simp only [w8]; omega
+
+theorem fold_c (e0 e1 e2 e3 e4 e5 e6 e7 : Nat) (h0 : e0 ≤ 128) (h1 : e1 ≤ 128) (h2 : e2 ≤ 128) (h3 : e3 ≤ 128)
+    (h4 : e4 ≤ 128) (_h5 : e5 ≤ 128) (_h6 : e6 ≤ 128) (_h7 : e7 ≤ 128) :
+    (w8 e0 e1 e2 e3 e4 e5 e6 e7 / 4294967296 % 256 + w8 e0 e1 e2 e3 e4 e5 e6 e7 % 256) % 18446744073709551616 =
+      e0 + e4 := by
+  have hd : w8 e0 e1 e2 e3 e4 e5 e6 e7 / 4294967296 = w8 e4 e5 e6 e7 0 0 0 0 := by simp only [w8]; omega
+  rw [hd]; simp only [w8]; omega
+
+theorem w8_bytes (x : Nat) : x % 18446744073709551616 =
+    w8 (x % 256) (x / 256 % 256) (x / 256 / 256 % 256) (x / 256 / 256 / 256 % 256) (x / 256 / 256 / 256 / 256 % 256)
+      (x / 256 / 256 / 256 / 256 / 256 % 256) (x / 256 / 256 / 256 / 256 / 256 / 256 % 256)
+      (x / 256 / 256 / 256 / 256 / 256 / 256 / 256 % 256) := by
+  simp only [w8]; omega
+/-- popcount.c:75-79 as a function of p01 + p23 -/
+def blockFolds (s : Nat) : Nat :=
+  let x := s % B
+  let x := ((x >>> 8) + x) % B
+  let x := ((x >>> 16) + x) % B
+  (((x >>> 32) &&& 0xff) + (x &&& 0xff)) % B
+
+theorem block_unfold (u0 u1 u2 u3 : Nat) :
+    block u0 u1 u2 u3 = blockFolds (fold8 ((limb4 u0 + limb4 u1) % B) + fold8 ((limb4 u2 + limb4 u3) % B)) := rfl
+
+/-- popcount.c:76-79 on a word whose 8 byte fields are all ≤ 32 ("8 0-32"): no carry crosses a byte in :76 ("8 0-64")
+    and :77 ("8 0-128"); :79 adds the two fields that hold the half sums ("8 0-256"). -/
+theorem folds_block (x : Nat) (h : allB (· ≤ 32) 8 x) : blockFolds x = sumB (fun b => b) 8 x := by
+  simp only [allB] at h
+  obtain ⟨h0, h1, h2, h3, h4, h5, h6, h7, _⟩ := h
+  simp only [blockFolds, sumB, Nat.shiftRight_eq_div_pow, and255, B, Nat.reducePow]
+  rw [w8_bytes x, fold_a _ _ _ _ _ _ _ _ h0 h1 h2 h3 h4 h5 h6 h7,
+    fold_b _ _ _ _ _ _ _ _ (by omega) (by omega) (by omega) (by omega) (by omega) (by omega) (by omega) (by omega),
+    fold_c _ _ _ _ _ _ _ _ (by omega) (by omega) (by omega) (by omega) (by omega) (by omega) (by omega) (by omega)]
+  omega
+
+theorem n4_parts : ∀ b, b < 256 → n4 b % 16 ≤ 4 ∧ n4 b / 16 ≤ 4 ∧ n4 b % 16 + n4 b / 16 = pc8 b := by decide +kernel
+theorem n4_le : ∀ b, b < 256 → n4 b ≤ 68 := by decide +kernel
+theorem pc8_le : ∀ b, b < 256 → pc8 b ≤ 8 := by decide +kernel
+
+/-- popcount.c:62 on bytes -/
+def g8 (b : Nat) : Nat := ((b / 16) &&& 0x0f) + (b &&& 0x0f)
+
+theorem fold8_bytes (p : Nat) : fold8 p = mapB g8 8 p := by
+  unfold fold8
+  have t : (p >>> 4) &&& M17 = mapB (fun b => (b / 16) &&& 0x0f) 8 p := by
+    rw [M17_rep]; exact shr_and 0x0f 16 16 4 (by decide) (by decide) (Or.inr (Or.inr ⟨rfl, rfl⟩)) (by decide +kernel) p
+  rw [t, M17_rep, and_rep 0x0f (by decide), mapB_add]
+  have : mapB g8 8 p < B := by
+    rw [B_256]; exact mapB_lt g8 (by decide +kernel) 8 p
+  exact Nat.mod_eq_of_lt this
+
+/-- popcount.c:53-62 (= :64-73): p01 has eight byte fields, field i = popc(byte i of u0) + popc(byte i of u1) ("8 0-16") -/
+theorem fold8_pair (u0 u1 : Nat) (h0 : u0 < B) (h1 : u1 < B) :
+    fold8 ((limb4 u0 + limb4 u1) % B) = map2 (fun a b => pc8 a + pc8 b) 8 u0 u1 := by
+  have hF : ∀ a, a < 256 → ∀ b, b < 256 → n4 a + n4 b < 256 := fun a ha b hb => by
+    have := n4_le a ha; have := n4_le b hb; omega
+  rw [limb4_bytes u0 h0, limb4_bytes u1 h1, mapB_add2,
+    Nat.mod_eq_of_lt (by rw [B_256]; exact map2_lt _ hF 8 u0 u1), fold8_bytes, mapB_comp2 _ g8 hF]
+  apply map2_congr
+  intro a ha b hb
+  have ra := n4_parts a ha; have rb := n4_parts b hb
+  simp only [g8, and15]
+  omega
+
+theorem allB_map2 (F : Nat → Nat → Nat) (p : Nat → Prop) (hF : ∀ a, a < 256 → ∀ b, b < 256 → F a b < 256 ∧ p (F a b)) :
+    ∀ k x y, allB p k (map2 F k x y)
+  | 0, _, _ => trivial
+  | k + 1, x, y => by
+    simp only [allB, map2]
+    have := hF (x % 256) (Nat.mod_lt _ (by decide)) (y % 256) (Nat.mod_lt _ (by decide))
+    have a : (F (x % 256) (y % 256) + 256 * map2 F k (x / 256) (y / 256)) % 256 = F (x % 256) (y % 256) := by omega
+    have b : (F (x % 256) (y % 256) + 256 * map2 F k (x / 256) (y / 256)) / 256 = map2 F k (x / 256) (y / 256) := by omega
+    rw [a, b]; exact ⟨this.2, allB_map2 F p hF k _ _⟩
+
+theorem sumB_map2 (f : Nat → Nat) (hf : ∀ a, a < 256 → ∀ b, b < 256 → f a + f b < 256) :
+    ∀ k x y, sumB (fun b => b) k (map2 (fun a b => f a + f b) k x y) = sumB f k x + sumB f k y
+  | 0, _, _ => rfl
+  | k + 1, x, y => by
+    simp only [sumB, map2]
+    have := hf (x % 256) (Nat.mod_lt _ (by decide)) (y % 256) (Nat.mod_lt _ (by decide))
+    have a : (f (x % 256) + f (y % 256) + 256 * map2 (fun a b => f a + f b) k (x / 256) (y / 256)) % 256 =
+        f (x % 256) + f (y % 256) := by omega
+    have b : (f (x % 256) + f (y % 256) + 256 * map2 (fun a b => f a + f b) k (x / 256) (y / 256)) / 256 =
+        map2 (fun a b => f a + f b) k (x / 256) (y / 256) := by omega
+    rw [a, b, sumB_map2 f hf k]; omega
+
+/-- adding two words whose byte fields are ≤ a and ≤ b with a + b < 256: field-wise, no carries -/
+theorem allB_add (a b : Nat) (hab : a + b < 256) : ∀ k p q, allB (· ≤ a) k p → allB (· ≤ b) k q →
+    allB (· ≤ a + b) k (p + q) ∧ sumB (fun b => b) k (p + q) = sumB (fun b => b) k p + sumB (fun b => b) k q
+  | 0, _, _, _, _ => ⟨trivial, rfl⟩
+  | k + 1, p, q, hp, hq => by
+    simp only [allB, sumB] at *
+    have e1 : (p + q) % 256 = p % 256 + q % 256 := by omega
+    have e2 : (p + q) / 256 = p / 256 + q / 256 := by omega
+    have ih := allB_add a b hab k (p / 256) (q / 256) hp.2 hq.2
+    rw [e1, e2]
+    exact ⟨⟨by omega, ih.1⟩, by rw [ih.2]; omega⟩
+
+/-- popcount.c:53-80: the 4-limb block adds the bit counts of its four limbs to `result`. -/
+theorem block_popc (u0 u1 u2 u3 : Nat) (h0 : u0 < B) (h1 : u1 < B) (h2 : u2 < B) (h3 : u3 < B) :
+    block u0 u1 u2 u3 = Bits.popc u0 + Bits.popc u1 + Bits.popc u2 + Bits.popc u3 := by
+  have hP : ∀ a, a < 256 → ∀ b, b < 256 → pc8 a + pc8 b < 256 ∧ pc8 a + pc8 b ≤ 16 := fun a ha b hb => by
+    have := pc8_le a ha; have := pc8_le b hb; omega
+  rw [block_unfold, fold8_pair u0 u1 h0 h1, fold8_pair u2 u3 h2 h3]
+  have A := allB_add 16 16 (by decide) 8 _ _ (allB_map2 _ (· ≤ 16) hP 8 u0 u1) (allB_map2 _ (· ≤ 16) hP 8 u2 u3)
+  rw [folds_block _ A.1, A.2, sumB_map2 pc8 (fun a ha b hb => (hP a ha b hb).1),
+    sumB_map2 pc8 (fun a ha b hb => (hP a ha b hb).1), popc_bytes, popc_bytes, popc_bytes, popc_bytes]
+  omega
+
+theorem popcAux_le : ∀ k x, Bits.popcAux k x ≤ k
+  | 0, _ => by simp [Bits.popcAux]
+  | k + 1, x => by simp only [Bits.popcAux]; have := popcAux_le k (x / 2); omega
+theorem popc_le_64 (x : Nat) : Bits.popc x ≤ 64 := popcAux_le 64 x
+
+/-! ## the tail loop -/
+
+theorem mapB_mod (g : Nat → Nat) : ∀ k y, mapB g k (y % 256 ^ k) = mapB g k y
+  | 0, _ => rfl
+  | k + 1, y => by
+    simp only [mapB]
+    rw [Nat.pow_succ, Nat.mod_mul_left_mod, Nat.mod_mul_left_div_self, mapB_mod g k]
+
+theorem sumB_mod (g : Nat → Nat) : ∀ k y, sumB g k (y % 256 ^ k) = sumB g k y
+  | 0, _ => rfl
+  | k + 1, y => by
+    simp only [sumB]
+    rw [Nat.pow_succ, Nat.mod_mul_left_mod, Nat.mod_mul_left_div_self, sumB_mod g k]
+
+theorem allB_mod (p : Nat → Prop) : ∀ k y, allB p k y → allB p k (y % 256 ^ k)
+  | 0, _, _ => trivial
+  | k + 1, y, h => by
+    simp only [allB] at *
+    rw [Nat.pow_succ, Nat.mod_mul_left_mod, Nat.mod_mul_left_div_self]
+    exact ⟨h.1, allB_mod p k _ h.2⟩
+
+theorem allB_mapB (f : Nat → Nat) (p : Nat → Prop) (hf : ∀ b, b < 256 → f b < 256 ∧ p (f b)) :
+    ∀ k x, allB p k (mapB f k x)
+  | 0, _ => trivial
+  | k + 1, x => by
+    simp only [allB, mapB]
+    have := hf (x % 256) (Nat.mod_lt _ (by decide))
+    have a : (f (x % 256) + 256 * mapB f k (x / 256)) % 256 = f (x % 256) := by omega
+    have b : (f (x % 256) + 256 * mapB f k (x / 256)) / 256 = mapB f k (x / 256) := by omega
+    rw [a, b]; exact ⟨this.2, allB_mapB f p hf k _⟩
+
+/-- both nibbles of the byte are at most 4 (comment "4 0-4") -/
+def good (b : Nat) : Prop := b % 16 ≤ 4 ∧ b / 16 ≤ 4
+
+/-- popcount.c:99 `((p0 >> 4) + p0) & MAX/17` on nibble fields ≤ 4: the low nibble of every byte of (p0 >> 4) + p0 is
+    the sum of the two nibbles of that byte of p0, and no carry reaches the next byte. -/
+theorem tail_shift : ∀ k p, allB good k p →
+    mapB (fun b => b % 16) k (p / 16 + p) = mapB (fun b => (b / 16 + b) % 16) k p
+  | 0, _, _ => rfl
+  | 1, p, _ => by
+    simp only [mapB]
+    have e1 : (p / 16 + p) % 256 % 16 = (p % 256 / 16 + p % 256) % 16 := by omega
+    rw [e1]
+  | k + 2, p, h => by
+    have ih := tail_shift (k + 1) (p / 256) h.2
+    simp only [allB, good] at h
+    have e1 : (p / 16 + p) % 256 % 16 = (p % 256 / 16 + p % 256) % 16 := by omega
+    have h16 : p / 16 = p % 256 / 16 + 16 * (p / 256) := by omega
+    have hr : p / 256 = (p / 256) % 16 + 16 * (p / 256 / 16) := by omega
+    have hrr : (p / 256) % 16 = p / 256 % 256 % 16 := by omega
+    have e2 : (p / 16 + p) / 256 = p / 256 / 16 + p / 256 := by omega
+    simp only [mapB] at ih ⊢
+    rw [e2, ih, e1]
+
+theorem n4_good : ∀ b, b < 256 → n4 b < 256 ∧ good (n4 b) := by
+  intro b hb; have := n4_parts b hb; have := n4_lt b hb; exact ⟨by omega, by unfold good; omega⟩
+theorem n4_fold : ∀ b, b < 256 → (n4 b / 16 + n4 b) % 16 = pc8 b := by decide +kernel
+
+/-- popcount.c:96-99: the tail loop's per-limb value has eight byte fields, field i = popc(byte i of u) ("8 0-8") -/
+theorem tailLimb_bytes (u : Nat) (hu : u < B) : tailLimb u = mapB pc8 8 u := by
+  show (((limb4 u >>> 4) + limb4 u) % B) &&& M17 = _
+  rw [M17_rep, and_rep 0x0f (by decide), mapB_congr (fun b => b &&& 15) (fun b => b % 16) (fun b _ => and15 b), B_256,
+    mapB_mod, Nat.shiftRight_eq_div_pow, show (2:Nat) ^ 4 = 16 from rfl, limb4_bytes u hu,
+    tail_shift 8 _ (allB_mapB n4 good n4_good 8 u), mapB_comp n4 _ n4_lt]
+  exact mapB_congr _ _ n4_fold 8 u
+
+theorem fold_d (e0 e1 e2 e3 e4 e5 e6 e7 : Nat) (h0 : e0 ≤ 127) (h1 : e1 ≤ 127) (h2 : e2 ≤ 127) (h3 : e3 ≤ 127)
+    (h4 : e4 ≤ 127) (_h5 : e5 ≤ 127) (_h6 : e6 ≤ 127) (_h7 : e7 ≤ 127) :
+    (w8 e0 e1 e2 e3 e4 e5 e6 e7 / 4294967296 + w8 e0 e1 e2 e3 e4 e5 e6 e7) % 18446744073709551616 % 256 =
+      e0 + e4 := by
+  have hd : w8 e0 e1 e2 e3 e4 e5 e6 e7 / 4294967296 = w8 e4 e5 e6 e7 0 0 0 0 := by simp only [w8]; omega
+  rw [hd]; simp only [w8]; omega
+
+/-- popcount.c:109-114 on a word whose 8 byte fields are all ≤ 24 (at most 3 tail limbs, "8 0-8" each): the folds add
+    the fields without carries and the total (≤ 192) fits the byte that :114 masks out. -/
+theorem tailFin_bytes (x : Nat) (hx : x < B) (h : allB (· ≤ 24) 8 x) : tailFin x = sumB (fun b => b) 8 x := by
+  simp only [allB] at h
+  obtain ⟨h0, h1, h2, h3, h4, h5, h6, h7, _⟩ := h
+  have hx' : x % 18446744073709551616 = x := Nat.mod_eq_of_lt hx
+  have w := w8_bytes x
+  rw [hx'] at w
+  simp only [tailFin, sumB, Nat.shiftRight_eq_div_pow, and255, B, Nat.reducePow]
+  rw [w, fold_a _ _ _ _ _ _ _ _ (by omega) (by omega) (by omega) (by omega) (by omega) (by omega) (by omega) (by omega),
+    fold_b _ _ _ _ _ _ _ _ (by omega) (by omega) (by omega) (by omega) (by omega) (by omega) (by omega) (by omega),
+    fold_d _ _ _ _ _ _ _ _ (by omega) (by omega) (by omega) (by omega) (by omega) (by omega) (by omega) (by omega)]
+  omega
 end Mpir.Swar
